@@ -3,7 +3,6 @@ package c17
 import (
 	"fmt"
 	"math/big"
-	"sort"
 	"strings"
 	"testing"
 	"time"
@@ -19,27 +18,13 @@ import (
 	"pgregory.net/rapid"
 
 	"verifharness/internal/evid"
-	"verifharness/internal/kf"
 	"verifharness/internal/sim"
-)
-
-const (
-	keyH11 = "c17.qualifyflips-index-out-of-range-on-flipless-shard"
-	keyH7  = "c17.epoch-result-depends-on-map-order-on-delegation-chain"
 )
 
 type reporter interface {
 	Fatalf(format string, args ...interface{})
 	Helper()
 }
-
-type verdict int
-
-const (
-	caseChecked verdict = iota
-	caseExcludedFlipless
-	caseExcludedChain
-)
 
 func (s *caseSpec) setClock(i int) {
 	off := int64(0)
@@ -67,7 +52,7 @@ func deliver(n *node, blocks []*types.Block) {
 }
 
 // checkCase evaluates the epoch in all variants and applies the oracle.
-func checkCase(t reporter, s *caseSpec, tables []ceremony.VerifC17Shard) verdict {
+func checkCase(t reporter, s *caseSpec, tables []ceremony.VerifC17Shard) {
 	t.Helper()
 	defer func() {
 		time.Local = time.UTC
@@ -78,7 +63,6 @@ func checkCase(t reporter, s *caseSpec, tables []ceremony.VerifC17Shard) verdict
 	ledger := buildLedger(s)
 	blocks1 := s.blocks(s.Order1, s.Split1)
 	blocks2 := s.blocks(s.Order2, s.Split2)
-	_, sensitive := delegationChains(s)
 
 	// (i) first evaluation
 	s.setClock(0)
@@ -86,13 +70,7 @@ func checkCase(t reporter, s *caseSpec, tables []ceremony.VerifC17Shard) verdict
 	deliver(n0, blocks1)
 	first := n0.evaluate(s, "first evaluation")
 	if first.Panic != "" {
-		if senders := fliplessLongAnswers(s, tables); len(senders) > 0 && (strings.Contains(first.Panic, "index out of range") || strings.Contains(first.Panic, "nil pointer dereference")) {
-			if kf.Report(t, "C17", keyH11, "case:\n%s\nApplyNewEpoch panics (%s) when a candidate of a shard without any flip (identities %v) has long answers on chain; every node applying the validation-finished block crashes",
-				s.describe(), first.Panic, senders) {
-				return caseExcludedFlipless
-			}
-		}
-		t.Fatalf("case:\n%s\n%s\nApplyNewEpoch PANICKED: %s", s.describe(), first.Stack, first.Panic)
+		t.Fatalf("case:\n%s\n%s\nApplyNewEpoch PANICKED (every node applying the validation-finished block crashes): %s", s.describe(), first.Stack, first.Panic)
 	}
 	outs := []*outcome{&first}
 
@@ -163,41 +141,7 @@ func checkCase(t reporter, s *caseSpec, tables []ceremony.VerifC17Shard) verdict
 		}
 	}
 
-	// (vii) the cache-hit loop applies the cached values in Go map order; replay it in explicit orders
-	if !first.Failed {
-		vals, _, _ := n0.vc.VerifC17Cached(epochHeight)
-		sort.Slice(vals, func(i, j int) bool { return string(vals[i].Addr[:]) < string(vals[j].Addr[:]) })
-		cons := nodeConfig(s).Consensus
-		for pi, perm := range s.Perms {
-			order := completePerm(perm, len(vals))
-			cs, err := n0.appState.ForCheck(ledgerHeight)
-			if err != nil {
-				t.Fatalf("harness: ForCheck: %v", err)
-			}
-			for _, k := range order {
-				ceremony.VerifApplyOnState(cons, cs, s.Epoch, vals[k].Addr, vals[k].Value)
-			}
-			cs.Precommit()
-			if root := cs.State.Root(); root != first.Root {
-				var names []string
-				for _, k := range order {
-					names = append(names, s.name(vals[k].Addr))
-				}
-				diff := sim.DiffImages(sim.Image(first.check), sim.Image(cs), s.name)
-				if len(diff) > 8 {
-					diff = diff[:8]
-				}
-				diffs = append(diffs, fmt.Sprintf("[first evaluation] vs [cached values applied in order #%d %v]: state root %x vs %x; ledger difference: %v", pi, names, first.Root[:6], root[:6], diff))
-			}
-		}
-	}
-
 	if len(diffs) > 0 {
-		if len(sensitive) > 0 {
-			if kf.Report(t, "C17", keyH7, "case:\n%s\ndelegation chain(s) %v: the epoch result depends on the order in which Go iterates a map:\n%s", s.describe(), sensitive, strings.Join(diffs, "\n")) {
-				return caseExcludedChain
-			}
-		}
 		t.Fatalf("case:\n%s\nfirst result:\n%s\nTWO EVALUATIONS OF THE SAME CHAIN DATA DISAGREE:\n%s", s.describe(), first.Canon, strings.Join(diffs, "\n"))
 	}
 
@@ -205,24 +149,6 @@ func checkCase(t reporter, s *caseSpec, tables []ceremony.VerifC17Shard) verdict
 		t.Fatalf("case:\n%s\nresult:\n%s\nSTATEMENT BROKEN: %s", s.describe(), first.Canon, v)
 	}
 	s.record(&first, tables)
-	return caseChecked
-}
-
-func completePerm(perm []int, n int) []int {
-	seen := make([]bool, n)
-	var res []int
-	for _, k := range perm {
-		if k >= 0 && k < n && !seen[k] {
-			seen[k] = true
-			res = append(res, k)
-		}
-	}
-	for k := 0; k < n; k++ {
-		if !seen[k] {
-			res = append(res, k)
-		}
-	}
-	return res
 }
 
 // record counts the classes of a checked case and registers it as non-trivial
@@ -233,6 +159,13 @@ func (s *caseSpec) record(o *outcome, tables []ceremony.VerifC17Shard) {
 	evid.Count(fmt.Sprintf("chain.length-%d", longest))
 	if len(sensitive) > 0 {
 		evid.Count("chain.order-sensitive-shape")
+		for _, c := range sensitive {
+			if !o.Failed && o.After[s.Idents[c.A].Addr].NewbieOrBetter() && o.After[s.Idents[c.B].Addr].NewbieOrBetter() {
+				// both delegations are candidates for transitive removal: the application order decides which one survives
+				evid.Count("chain.order-sensitive-both-revalidated")
+				break
+			}
+		}
 	}
 	candidates := map[common.Address]bool{}
 	for _, sh := range tables {
@@ -251,6 +184,9 @@ func (s *caseSpec) record(o *outcome, tables []ceremony.VerifC17Shard) {
 		for _, c := range sh.Candidates {
 			candidates[c] = true
 		}
+	}
+	if len(fliplessLongAnswers(s, tables)) > 0 {
+		evid.Count("shard.zero-flips-with-long-answers-on-chain")
 	}
 	evid.Count(fmt.Sprintf("shards.%d", s.ShardsNum))
 	evid.Count(fmt.Sprintf("consensus.v%d", s.Version))
@@ -337,39 +273,6 @@ func (s *caseSpec) record(o *outcome, tables []ceremony.VerifC17Shard) {
 		evid.Sample("epoch", map[string]interface{}{"identities": len(s.Idents), "epoch": s.Epoch, "consensus": s.Version, "shards": s.ShardsNum, "messages": len(s.Msgs),
 			"promoted": promoted, "failed": failed, "kept": kept, "delegatedCandidates": delegated, "longestDelegationChain": longest, "blocks": len(s.Split1), "restartAfter": s.RestartK})
 	}
-}
-
-// dropMessages removes messages and renumbers orders and block splits.
-func (s *caseSpec) dropMessages(drop func(m *message) bool) {
-	newIdx := make([]int, len(s.Msgs))
-	var kept []message
-	for i := range s.Msgs {
-		if drop(&s.Msgs[i]) {
-			newIdx[i] = -1
-			continue
-		}
-		newIdx[i] = len(kept)
-		kept = append(kept, s.Msgs[i])
-	}
-	refit := func(order, split []int) ([]int, []int) {
-		var no, ns []int
-		pos := 0
-		for _, size := range split {
-			c := 0
-			for k := 0; k < size; k++ {
-				if ni := newIdx[order[pos]]; ni >= 0 {
-					no = append(no, ni)
-					c++
-				}
-				pos++
-			}
-			ns = append(ns, c)
-		}
-		return no, ns
-	}
-	s.Order1, s.Split1 = refit(s.Order1, s.Split1)
-	s.Order2, s.Split2 = refit(s.Order2, s.Split2)
-	s.Msgs = kept
 }
 
 // ---------------------------------------------------------------------------
@@ -691,15 +594,6 @@ func drawArrival(t *rapid.T, s *caseSpec) {
 	for k := 0; k < 12; k++ {
 		s.Clocks = append(s.Clocks, int64(rapid.IntRange(-3600, 3*3600).Draw(t, "nodeClock")))
 	}
-	ids := make([]int, len(s.Idents))
-	for i := range ids {
-		ids[i] = i
-	}
-	desc := make([]int, len(ids))
-	for i := range ids {
-		desc[i] = len(ids) - 1 - i
-	}
-	s.Perms = [][]int{ids, desc, rapid.Permutation(ids).Draw(t, "applyOrder1"), rapid.Permutation(ids).Draw(t, "applyOrder2")}
 }
 
 // TestEpochReproducible: generated ledgers and ceremonies, all evaluation variants.
@@ -711,22 +605,6 @@ func TestEpochReproducible(t *testing.T) {
 		parts := drawParticipation(t, s)
 		s.Msgs = buildMessages(s, tables, parts)
 		drawArrival(t, s)
-		switch checkCase(t, s, tables) {
-		case caseExcludedFlipless:
-			// continue behind the known finding: same case without the long answers of flip-less shards
-			evid.Count("excluded.flipless-shard-long-answers")
-			senders := map[int]bool{}
-			for _, i := range fliplessLongAnswers(s, tables) {
-				senders[i] = true
-			}
-			s.dropMessages(func(m *message) bool { return m.Type == types.SubmitLongAnswersTx && senders[m.From] })
-			if v := checkCase(t, s, tables); v == caseExcludedChain {
-				evid.Count("excluded.order-sensitive-delegation-chain")
-			} else if v != caseChecked {
-				t.Fatalf("harness: case still excluded after removing the long answers of flip-less shards")
-			}
-		case caseExcludedChain:
-			evid.Count("excluded.order-sensitive-delegation-chain")
-		}
+		checkCase(t, s, tables)
 	})
 }
